@@ -27,6 +27,7 @@ EXPLANATION = (
     "(advances only after a successful decrypt), shared analysis with C02.R4. That delivered messages are a byte-exact "
     "prefix rests on AEAD authenticity (a cryptographic fact) and is not decided; the static part is that every failed "
     "check stops delivery."
+    ' Added: a Noise frame is consumed only after its handler returned; no exit of the READY handler avoids the decrypt; nothing on the report/close path writes the receive buffer; any other error is reported unchanged.'
 )
 ASSUMPTIONS = ["AEAD decrypt raises InvalidTag for any altered, replayed or reordered frame given the nonce discipline", "asyncio calls connection_lost with the exception raised by data_received"]
 
